@@ -424,6 +424,8 @@ def run_case(case):
     via = case.get("via", "dict")
     if via == "dict":
         return impl.run(case["form"])
+    if via == "md":
+        return impl.run(case["form"], via="md")
     if via == "dict_rename":
         wb = impl.wb_dict(case["form"])
         for a, b in case["rename"].items():
@@ -725,6 +727,95 @@ def near_miss_case(ctx, case):
                          case, extra=extra))
 
 
+# ------------------------------------------------------------------------------- stream S: separator boundaries in parameter values
+
+
+def boundary_variants(value, seps):
+    """leading / trailing / doubled separator, empty segment, separator alone, for every separator of the value's grammar"""
+    out = {value}
+    for sep in seps:
+        out |= {sep + value, value + sep, sep, sep + sep, sep + value + sep}
+        if sep in value:
+            out.add(value.replace(sep, sep + sep, 1))
+            head, _, tail = value.partition(sep)
+            out |= {head + sep, sep + tail, head, tail}
+        else:
+            out.add(value[:1] + sep + value[1:])
+            out.add(value[:1] + sep + sep + value[1:])
+    return sorted(out)
+
+
+def pkg_ok(name):
+    """the documented rule for `app=`: two or more non-empty segments of letters, digits and `_`, none starting with a
+    digit or `_` (the harness's own reading, lower-cased as parameters are)"""
+    segs = name.split(".")
+    return len(segs) >= 2 and all(seg and re.fullmatch(r"[a-z][a-z0-9_]*", seg) for seg in segs)
+
+
+PARAM_GRAMMARS = [
+    # (type, parameter, a valid value, separators of its grammar, row demanded on rejection)
+    ("image", "app", "com.example.app", [".", "_"], True),
+    ("text", "rows", "3", [".", "-", "+"], True),
+    ("image", "max-pixels", "640", [".", "-"], False),
+    ("range", "start", "1.5", [".", "-", "e"], False),
+    ("range", "step", "2", [".", "-"], False),
+    ("geopoint", "capture-accuracy", "2.5", [".", "-"], False),
+    ("geopoint", "allow-mock-accuracy", "true", ["-", " "], False),
+    ("audio", "quality", "voice-only", ["-", "_"], False),
+    ("select_one LIST", "seed", "12.5", [".", "-", "${", "}"], False),
+    ("select_one LIST", "randomize", "true", ["-", "="], False),
+    ("select_one_from_file f.csv", "value", "a-b.c", [".", "-", "_"], True),
+    ("select_one_from_file f.csv", "label", "a_b", [".", "-", "_"], True),
+    ("audit", "location-min-interval", "10", [".", "-"], False),
+    ("audit", "track-changes", "true", ["-"], False),
+]
+
+
+def separator_cases():
+    L = [{"list_name": "l", "name": "a", "label": "A"}]
+    T = {"type": "text", "name": "a0", "label": "A"}
+    k = 0
+    for typ, par, val, seps, with_row in PARAM_GRAMMARS:
+        for v in boundary_variants(val, seps):
+            cells = [f"{par}={v}"]
+            if par == "seed":
+                cells = [f"randomize=true {par}={v}"]
+            if par == "location-min-interval":
+                cells = [f"location-priority=balanced location-max-age=100 {par}={v}"]
+            for cell in cells:
+                row = {"type": typ.replace("LIST", "l"), "parameters": cell}
+                if typ != "audit":
+                    row["name"] = "p0"
+                    row["label"] = "P"
+                rows = [dict(T), row] if k % 2 else [row, dict(T)]
+                k += 1
+                yield {"stream": "separators", "param": par, "value": v, "row": rows.index(row) + 2, "with_row": with_row,
+                       "form": {"survey": rows, "choices": [dict(x) for x in L]}, "via": "dict"}
+    # the parameters cell's own grammar: `;` `,` blank and `=`
+    for cell in boundary_variants("rows=3", [";", ",", " ", "="]) + boundary_variants("rows=3;rows=4", [";"]) + ["rows=3 ; x", "rows = 3"]:
+        row = {"type": "text", "name": "p0", "label": "P", "parameters": cell}
+        yield {"stream": "separators", "param": "<cell>", "value": cell, "row": 2, "with_row": False,
+               "form": {"survey": [row, dict(T)]}, "via": "dict"}
+
+
+def separator_case(ctx, case):
+    r = run_case(case)
+    ctx.count(f"S:{case['param']}:{r['class']}")
+    if not check_no_internal(ctx, case, r):
+        return
+    extra = {"mutation": "separator_boundary", "site": [case["param"], case["value"]], "msg": r.get("msg", "")[:300]}
+    if case["param"] == "app":
+        valid = pkg_ok(case["value"].lower().strip())
+        if r["class"] == "ok" and not valid:
+            ctx.fail(Failure("accepted-broken", f"app={case['value']!r} is not a package name but was accepted", case, extra=extra))
+        if r["class"] == "pyxform" and valid:
+            ctx.fail(Failure("rejected-wellformed", f"app={case['value']!r} is a package name but was rejected: {r['msg'][:120]}", case, extra=extra))
+    if r["class"] == "pyxform" and case["with_row"] and "Expecting parameters" not in r["msg"] and "Accepted parameters" not in r["msg"] \
+            and f"[row : {case['row']}]" not in r["msg"]:
+        ctx.fail(Failure("not-located", f"{case['param']}={case['value']!r}: rejection does not cite [row : {case['row']}]: {r['msg'][:160]!r}",
+                         case, extra=extra))
+
+
 # ------------------------------------------------------------------------------- stream P: header splitting, settings reads
 
 ODD_HEADERS = ["x:jr", "a:b:jr", "jr", "jr:jr", "a:jr:b", "bind:jr:count", " x : jr ", "jr:", "label:jr", "x:jr:y:jr",
@@ -889,6 +980,11 @@ def explore(ctx, factor, bs):
         for case in near_miss_cases():
             near_miss_case(ctx, case)
             ctx.record(case, True)
+    # ---- S: boundary placements of the separators of every structured parameter value
+    if factor == 1:
+        for case in separator_cases():
+            separator_case(ctx, case)
+            ctx.record(case, True)
     # ---- P: header splitting and the settings reads (model Pyxv.PreLoop)
     if factor == 1:
         for case in preloop_cases():
@@ -923,7 +1019,8 @@ def explore(ctx, factor, bs):
                 if prefixed and mid not in NO_PREFIX:
                     f2, expect = with_prefix(f2, expect, langs)
                 applicable[mid] += 1
-                case = {"stream": "catalogue", "mutation": mid, "site": s, "form": f2, "expect": expect, "via": "dict"}
+                case = {"stream": "catalogue", "mutation": mid, "site": s, "form": f2, "expect": expect,
+                        "via": expect.get("via", "dict")}
                 catalogue_case(ctx, case)
                 ctx.record(case, True)
     ctx.notes["catalogue_applications"] = applicable
@@ -966,6 +1063,8 @@ def replay(ctx, payload, bs):
         preloop_case(ctx, case)
     elif case.get("stream") == "near-miss":
         near_miss_case(ctx, case)
+    elif case.get("stream") == "separators":
+        separator_case(ctx, case)
     else:
         check_no_internal(ctx, case, run_case(case))
     return (len(ctx.failures), len(ctx.mismatches)) == before
